@@ -76,9 +76,10 @@ CHECKS = {
             "bounded recovery after a discontinuity instead of impossible demands.",
             "deterministic simulation: virtual time (years per run), agent reboot/clock-step faults, history oracle with bounded recovery"),
     "C13": ("fault_enumeration", "6 C13",
-            "All 1 554 sequences of per-attempt outcomes {reply in time, no reply, late reply, two replies, ICMP/OS error, fatal "
-            "socket error} for retries 1..4 are enumerated against the shipped send_udp / SNMPClientProtocol on the simulated "
-            "transport under virtual time (thorough: x 4 timeouts x 8 latency seeds, directly and through Client.get); oracle: "
+            "All 2 800 sequences of per-attempt outcomes {reply in time (possibly zero-length), no reply, late reply, two replies, "
+            "ICMP/OS error (4 errno kinds), fatal socket error, send queue full/EAGAIN} for retries 1..4 are enumerated against "
+            "the shipped send_udp / SNMPClientProtocol on the simulated transport under virtual time (quick: x 4 timeouts; "
+            "thorough: x 8 latency seeds too; directly and through Client.get; wall clock jumping in half of the runs); oracle: "
             "transmission count, payload identity, exact retry spacing and return/Timeout instants in virtual time, every socket "
             "closed afterwards.",
             "deterministic simulation: exhaustive per-attempt fault sequences on a simulated datagram transport, virtual-time arithmetic oracle"),
